@@ -184,7 +184,7 @@ func c16Judge(c *Ctx, cs *Case) {
 }
 
 func c16Run(c *Ctx) {
-	pre := Lines(Fun("idf", "v", " "+Ret("v")+" "), Var("arr", "[10, 11, 12, 13, 14, 15, 16, 17]"), Var("ob", "{abc: 1, k: 2, x5: 3}"))
+	pre := Lines(Fun("idf", "v", " "+Ret("v")+" "), Var("arr", "[10, 11, 12, 13, 14, 15, 16, 17]"), Var("ob", "{abc: 1, k: 2, x5: 3, \u0995\u09df\u09be: 4, \u0995\u09c7\u09be: 5}"))
 	ctxs := c16Contexts()
 	build := func(ctx string, p c16Producer, lit string) (string, string) {
 		body := strings.ReplaceAll(strings.ReplaceAll(ctx, "%v", p.expr), "%L", lit)
@@ -201,7 +201,7 @@ func c16Run(c *Ctx) {
 		prods     []c16Producer
 	}
 	var vals []val
-	for _, s := range []string{"abc", "", "5", "12.5", "০৭", "1000000", "x5", "7"} {
+	for _, s := range []string{"abc", "", "5", "12.5", "\u09e6\u09ed", "1000000", "x5", "7", "\u0995\u09df\u09be", "e\u0301\u09dc", "\u0995\u09c7\u09be"} {
 		vals = append(vals, val{"string", `"` + s + `"`, c16StringProducers(s)})
 	}
 	for _, n := range []int{3, 0, -1, 7, 1000000, 1048576, 2, 1} {
@@ -245,7 +245,7 @@ func c16Run(c *Ctx) {
 func init() {
 	register(&CheckDef{
 		ID:   "C16",
-		Rule: "program groups: ~170 one-hole contexts (each operand position of each binary operator with number and string partners, unary operators, logical operators, if/while/for conditions, index read/write, property, call, each argument position of every built-in including the ইনপুট prompt and the কি_রিমুভ key, element of a printed array, property value, element/property store, every concatenation position, equality against the literal and against itself) x 8 string values (incl. empty, numeric-looking, Bangla digits, >= 10^6) with 12-14 producers each (literal, concatenations, object property, array element, function return, parameter, ইনপুট from stdin, property assignment, value/key listing, variable, logical result, number-to-string) and 8 number values (incl. 0, -1, 10^6, 2^20) with 19-21 producers each (literal, arithmetic, every bitwise operator, ~~, রাউন্ড, পরমমান, সর্বোচ্চ, সর্বনিম্ন of array, ঘাত, লেন, Bangla digits, function return, parameter, containers). Within each (context, value) group every producer's observation record (stdout bytes, exit status, first diagnostic with line numbers and quoted expression renderings removed) must equal the literal producer's. Non-trivial = distinct decided group.",
+		Rule: "program groups: ~170 one-hole contexts (each operand position of each binary operator with number and string partners, unary operators, logical operators, if/while/for conditions, index read/write, property, call, each argument position of every built-in including the ইনপুট prompt and the কি_রিমুভ key, element of a printed array, property value, element/property store, every concatenation position, equality against the literal and against itself) x 11 string values (incl. empty, numeric-looking, Bangla digits, >= 10^6, three strings that Unicode normalisation would rewrite) with 12-14 producers each (literal, concatenations, object property, array element, function return, parameter, ইনপুট from stdin, property assignment, value/key listing, variable, logical result, number-to-string) and 8 number values (incl. 0, -1, 10^6, 2^20) with 19-21 producers each (literal, arithmetic, every bitwise operator, ~~, রাউন্ড, পরমমান, সর্বোচ্চ, সর্বনিম্ন of array, ঘাত, লেন, Bangla digits, function return, parameter, containers). Within each (context, value) group every producer's observation record (stdout bytes, exit status, first diagnostic with line numbers and quoted expression renderings removed) must equal the literal producer's. Non-trivial = distinct decided group.",
 		Assumptions: []string{"no expected output is needed: the oracle is pairwise equality; the producers are known to yield the same value by the language's own definitions (e.g. 7&3 = 3)"},
 		Run:         c16Run,
 		Judge:       c16Judge,
